@@ -809,6 +809,50 @@ def eval_place(case, res):
         res.terms.append(f"CRectVerts {qq(scale)} {L.cq(sh.length)} {L.cq(sh.width)} {L.cpt(sh.center)} "
                          f"{L.cq(sh.orientation)} {qq(math.cos(sh.orientation))} {qq(math.sin(sh.orientation))} "
                          f"(OFlat {L.c_flat([x for p in v for x in p])})")
+    eval_fromstate(case, res, sh, pos, th, scale)
+
+
+def c_state4(st):
+    """Model/Shapes.state term of an exact state as occupancy_shape_from_state reads it: position, the stored
+    orientation if the state stores one, else the velocity vector (velocity, velocity_y)"""
+    stored = hasattr(st, "orientation") and not L.derived_orientation(st)
+    ori = f"(Some (OExact {L.cq(st.orientation)}))" if stored else "None"
+    vec = "None" if stored else f"(Some {L.cpt((st.velocity, st.velocity_y))})"
+    return f"(Build_state {qz(st.time_step)} (Some (PPoint {L.cpt(st.position)})) {ori} {vec} [])"
+
+
+def eval_fromstate(case, res, sh, pos, th, scale):
+    """the same shape at an exact state of a random class, through TrajectoryPrediction (the route on which states
+    without an orientation attribute get their heading)"""
+    rng = random.Random(case["sub"] ^ 0x7171)
+    cls = rng.choice([KSState, PMState, "custom_pm", CustomState, PMState, "custom_pm"])
+    v = scen.rnd(rng, 0.1, 20)
+    vx, vy = rng.choice([v, -v, 0.0, v]), rng.choice([scen.rnd(rng, -5, 5), 0.0, scen.rnd(rng, -5, 5)])
+    if cls is PMState:
+        st = PMState(time_step=1, position=pos, velocity=vx, velocity_y=vy)
+    elif cls == "custom_pm":
+        st = CustomState(time_step=1, position=pos, velocity=vx, velocity_y=vy)
+    elif cls is KSState:
+        st = KSState(time_step=1, position=pos, orientation=th, velocity=v, steering_angle=0.0)
+    else:
+        st = CustomState(time_step=1, position=pos, orientation=th, velocity=v)
+    where = f"{shape_kind(sh)} at a {type(st).__name__} (sub-seed {case['sub']}) through TrajectoryPrediction"
+    try:
+        got = TrajectoryPrediction(Trajectory(1, [st]), sh).occupancy_at_time_step(1).shape
+    except Exception as e:  # noqa  (judged: an exact state of any class must be placeable)
+        res.bad(f"placement:raises {type(e).__name__}:{shape_kind(sh)}:{type(st).__name__}", f"{where}: raises {e!r}")
+        return
+    r = judge_region(rng, sh, st, got, where)
+    if r:
+        res.bad(*r)
+    stored = hasattr(st, "orientation") and not L.derived_orientation(st)
+    # the tables hold libm's values at the arguments read off the state here, independently of the implementation
+    h = st.orientation if stored else math.atan2(st.velocity_y, st.velocity)
+    atab = "[]" if stored else qlist([f"({L.cq(st.velocity_y)}, {L.cq(st.velocity)}, {L.cq(h)})"])
+    cstab = qlist([f"({L.cq(h)}, ({qq(math.cos(h))}, {qq(math.sin(h))}))"])
+    if all(q.shapely_object.is_valid and q.shapely_object.area > 1e-6 for q in polys(sh)):
+        res.terms.append(f"CFromState {qq(scale)} {L.c_shape(sh)} {c_state4(st)} {atab} {cstab} "
+                         f"(OFlat {L.c_flat(L.f_shape(got))})")
 
 
 def polys(sh):
@@ -854,10 +898,19 @@ def eval_enc(case, res):
     else:
         rb = p.rotate_translate_local(np.array([0, 0]), -psi_d).shapely_object.bounds
         pm = f"(PMBox {L.cpt(p.center)} {box_term(rb)})"
-    sm, orc = measure(sh, psi_d, delta)
+    global MEAS_SINK
+    MEAS_SINK = []
+    try:
+        sm, orc = measure(sh, psi_d, delta)
+        res.terms.extend(MEAS_SINK)
+    finally:
+        MEAS_SINK = None
     scale = max([1.0] + [abs(float(x)) for x in L.f_shape(sh)] + [abs(float(x)) for x in L.f_state(st)])
     o = "OExc" if got is None else f"(OFlat {L.c_flat(L.f_shape(got))})"
     res.terms.append(f"CEnclose {qq(scale)} {sm} {pm} {om} {orc} {o}")
+
+
+MEAS_SINK = None   # eval_enc collects the CMeas terms of the primitive shapes it measures here
 
 
 def measure(sh, psi_d, delta):
@@ -879,6 +932,11 @@ def measure(sh, psi_d, delta):
     with np.errstate(all="ignore"):
         dl = min(delta, np.arctan(w_v / l_v))
         dw = min(delta, np.arctan(l_v / w_v))
+    if MEAS_SINK is not None and (isinstance(sh, Circle) or isinstance(sh, Rectangle)
+                                  or (sh.shapely_object.is_valid and sh.shapely_object.area > 1e-6)):
+        o = sh.orientation if isinstance(sh, Rectangle) else 0.0
+        sc = max([1.0] + [abs(float(x)) for x in L.f_shape(sh)])
+        MEAS_SINK.append(f"CMeas {qq(sc)} {L.c_shape(sh)} {qq(math.cos(o))} {qq(math.sin(o))} {sm}")
     orc = (f"(Build_enc_oracle {qq(np.cos(dl))} {qq(np.sin(dl))} {qq(np.cos(dw))} {qq(np.sin(dw))} {qq(math.cos(psi_d))} "
            f"{qq(math.sin(psi_d))} {qq(float(np.linalg.norm(off)))} {qq(math.sin(0.5 * delta))})")
     return sm, orc
